@@ -260,7 +260,7 @@ def build(params):
     r = stream(s, 'config')
     sc = scen.generated_scenario(s, family='ref', raw=False, wild_index=False,
                                  onerror=False, onerror_mode=None, plant=False,
-                                 devfuncs=False, procs=r.random() < 0.75,
+                                 devfuncs=False, procs=r.random() < 0.75, as_collide=0.8,
                                  records=r.random() < 0.7, arrays=r.random() < 0.8)
     script = dict(sc['script'], deltas=[0.0])
     return {'property': PROP, 'run_seed': s, 'source': sc['source'], 'text': sc['text'],
@@ -371,7 +371,12 @@ def execute(scn):
         # only statements the free run actually reaches are worth stopping at
         fsim = Sim(mi, scn['script'], budget=CAP)
         seen = set()
-        fsim.post_hooks.append(lambda s_, n: seen.add(s_.cpu.pc))
+        first = {}
+
+        def visit(s_, n):
+            seen.add(s_.cpu.pc)
+            first.setdefault(s_.cpu.pc, len(first))
+        fsim.post_hooks.append(visit)
         fsim.run()
         lines = {mi.stmt_starts[a][2] for a in seen if a in mi.stmt_starts}
         cands = [c for c in candidate_stops(scn['ast'])
@@ -402,11 +407,98 @@ def execute(scn):
                                   'how': rp.choice(('break', 'break', 'step'))})
         stops.append({'id': None, 'j': 1, 'exprs': [], 'bad': [rp.choice(BAD_PRINTS)],
                       'how': 'finish'})
+        if cands and rp.random() < 0.7:
+            scn['chain_stops'] = make_chain(rp, scn, cands, mi, pos, first)
+    if scn.get('chain'):
+        run_chain(scn, stops, mi, pos, res, opt)
+        return res
+    if scn.get('chain_stops'):
+        run_chain(scn, scn['chain_stops'], mi, pos, res, opt)
+        if res.violations:
+            return res
     for st in stops:
         one_stop(scn, st, mi, pos, res, opt)
         if res.violations:
             break
     return res
+
+
+def names_of(e, out):
+    if e[0] in ('var', 'idx'):
+        out.add(e[1])
+    for x in e[1:]:
+        if isinstance(x, list):
+            if x and isinstance(x[0], str):
+                names_of(x, out)
+            else:
+                for y in x:
+                    if isinstance(y, list) and y and isinstance(y[0], str):
+                        names_of(y, out)
+
+
+def make_chain(rp, scn, cands, mi, pos, first):
+    """2-4 stops for one session, in the order the free run first reaches
+    them; a later stop re-uses the expression texts of earlier stops whose
+    names also exist in its scope (possibly with other types or values)."""
+    picked = []
+    for _ in range(rp.randint(2, 4)):
+        c = rp.choice(cands)
+        if c not in picked:
+            picked.append(c)
+
+    def when(c):
+        a = stop_address(mi, pos[c[0]][0])
+        return first.get(a, 10 ** 9)
+    picked.sort(key=when)
+    chain = []
+    earlier = []
+    # expressions over names that exist (by spelling) at two of the stops -
+    # a SHARED variable, a constant, or two different variables that happen to
+    # have one name in two routines: the same text is printed at both
+    scopes = [collect(scn['ast'], sid)[0] for sid, _ in picked]
+    common_exprs = {i: [] for i in range(len(picked))}
+    for i in range(len(picked)):
+        for k in range(i + 1, len(picked)):
+            if picked[i][1] == picked[k][1]:
+                continue
+            both = [n for n, t in sorted(scopes[i].scalars.items())
+                    if t in '%&!#' and scopes[k].scalars.get(n, '$') in '%&!#']
+            if not both:
+                continue
+            sub = Names()
+            sub.env = scopes[i].env
+            sub.scalars = {n: scopes[i].scalars[n] for n in both}
+            for _ in range(2):
+                try:
+                    e = gen_expr(rp, sub, rp.choice((1, 1, 2)))
+                    expr_type(e, scopes[k])
+                except Exception:
+                    continue
+                common_exprs[i].append(e)
+                common_exprs[k].append(e)
+    for n_, (sid, where) in enumerate(picked):
+        names, routine = scopes[n_], None
+        exprs = list(common_exprs[n_][:3])
+        for _ in range(rp.randint(1, 3)):
+            try:
+                exprs.append(gen_expr(rp, names, rp.choice((0, 1, 2))))
+            except Exception:
+                pass
+        known = set(names.scalars) | set(names.arrays) | set(names.records)
+        for e in earlier:
+            ns = set()
+            names_of(e, ns)
+            if ns and ns <= known and e not in exprs and rp.random() < 0.8:
+                try:
+                    expr_type(e, names)
+                except Exception:
+                    continue
+                exprs.append(e)
+        earlier += [e for e in exprs if e not in earlier]
+        chain.append({'id': sid, 'j': None, 'where': where, 'exprs': exprs[:6], 'oob': oob_prints(rp, names),
+                      'bad': [rp.choice(BAD_PRINTS) for _ in range(rp.randint(0, 2))],
+                      'bad_first': rp.random() < 0.6, 'how': 'chain'})
+    return chain
 
 
 def _mk(scn, st):
@@ -416,19 +508,111 @@ def _mk(scn, st):
     return d
 
 
-def one_stop(scn, st, mi, pos, res, opt):
+def open_session(scn, mi, bad):
     from qvm.dbg import Cmd
-
-    def bad(cls, detail, sig=None):
-        res.violation(cls, detail, _mk(scn, st), sig=sig or {})
     sim = Sim(mi, scn['script'], budget=CAP, fresh_module=True)
     box = {}
     sim.guarded(lambda: box.setdefault('dbg', Cmd(sim.machine, sim.module)))
     if sim.exc is not None or 'dbg' not in box:
         bad('C13:crash', {'where': 'start', 'exc': sim.exc})
-        return
+        return None, None
     dbg = box['dbg']
     dbg.auto_status = 'off'
+    return sim, dbg
+
+
+def stop_address(mi, line):
+    recs = sorted([s for s in mi.stmts if s[2] == line and s[1] > s[0]], key=lambda s: s[4])
+    return recs[0][0] if recs else None
+
+
+def run_chain(scn, stops, mi, pos, res, opt):
+    """One debugger session that visits the stops one after another (line
+    breakpoint + continue), printing at each: what an earlier print, an
+    earlier failed print or an earlier stop in another routine left behind in
+    the debugger must not influence a later evaluation."""
+    def bad(cls, detail, sig=None):
+        d = {k: scn[k] for k in ('property', 'run_seed', 'source', 'text', 'ast', 'script',
+                                 'meta', 'config', 'pick_seed')}
+        d['stops'] = stops
+        d['chain'] = True
+        res.violation(cls, detail, d, sig=sig or {})
+    sim, dbg = open_session(scn, mi, bad)
+    if sim is None:
+        return
+    cpu = sim.cpu
+    res.evals += 1
+    addr = {}
+    for st in stops:
+        p = pos.get(st['id'])
+        if p is not None:
+            a = stop_address(mi, p[0])
+            if a is not None:
+                addr[st['id']] = (p[0], a)
+    arrivals = {a: 0 for _, a in addr.values()}
+
+    def count(s_, n):
+        pc = s_.cpu.pc
+        if pc in arrivals and not s_.cpu.halted:
+            arrivals[pc] += 1
+    sim.post_hooks.append(count)
+    visited = 0
+    printed = {}
+    for st in stops:
+        if st['id'] not in addr:
+            continue
+        line, A = addr[st['id']]
+        sim.guarded(lambda: dbg.onecmd('break %d' % line))
+        guard = 0
+        while True:
+            sim.guarded(lambda: dbg.onecmd('continue'))
+            guard += 1
+            if cpu.halted or sim.exc is not None or guard > 40 or cpu.pc == A:
+                break
+        if sim.exc is not None:
+            bad('C13:crash', {'where': 'reaching the stop', 'exc': sim.exc})
+            return
+        sim.guarded(lambda: dbg.onecmd('delbr %d' % line))
+        if cpu.halted or cpu.pc != A:
+            res.count('chain_stop_not_reached')
+            break
+        j = arrivals[A]
+        leaves = []
+        for e in st['exprs']:
+            leaves_of(e, leaves)
+        tw = twin_values(scn, st['id'], st['exprs'] + leaves, opt)
+        res.evals += 1
+        expected = None
+        if tw is None or tw[0] != 'ok':
+            res.count('twin_unusable')
+        elif len(tw[1]) >= j >= 1:
+            expected = tw[1][j - 1]
+        else:
+            res.count('stop_without_twin_values')
+        visited += 1
+        res.count('chain_stops_visited')
+        for e in st['exprs']:
+            t = pe(e)
+            if any(w != st.get('where') for w in printed.get(t, ())):
+                res.count('chain_same_text_printed_in_two_routines')
+                break
+        for e in st['exprs']:
+            printed.setdefault(pe(e), set()).add(st.get('where'))
+        if visited > 1:
+            res.count('chain_stops_after_an_earlier_stop')
+        st = dict(st, j=j, how='chain')
+        if not do_prints(scn, st, sim, dbg, res, expected, leaves, pos, bad):
+            return
+    if visited > 1:
+        res.count('chain_sessions_with_several_stops')
+
+
+def one_stop(scn, st, mi, pos, res, opt):
+    def bad(cls, detail, sig=None):
+        res.violation(cls, detail, _mk(scn, st), sig=sig or {})
+    sim, dbg = open_session(scn, mi, bad)
+    if sim is None:
+        return
     cpu = sim.cpu
     res.evals += 1
     expected = None
@@ -462,11 +646,10 @@ def one_stop(scn, st, mi, pos, res, opt):
             expected = None
         else:
             expected = rows[st['j'] - 1]
-        recs = sorted([s for s in mi.stmts if s[2] == line and s[1] > s[0]], key=lambda s: s[4])
-        if not recs:
+        A = stop_address(mi, line)
+        if A is None:
             res.count('stop_line_without_code')
             return
-        A = recs[0][0]
         if st['how'] == 'break':
             sim.guarded(lambda: dbg.onecmd('break %d' % line))
             arrivals = 1 if cpu.pc == A else 0
@@ -500,10 +683,18 @@ def one_stop(scn, st, mi, pos, res, opt):
             res.count('stops_inside_procedure_frame')
         if fd > 2:
             res.count('stops_with_nested_frames')
-    # --- the prints ----------------------------------------------------------
-    cmds = [('expr', strip_names(pe(e), scn['ast']), i) for i, e in enumerate(st['exprs'])] + \
-           [('oob', strip_names(b, scn['ast']), None) for b in st.get('oob', [])] + \
+    do_prints(scn, st, sim, dbg, res, expected, leaves, pos, bad)
+
+
+def do_prints(scn, st, sim, dbg, res, expected, leaves, pos, bad):
+    """The print commands of one stop.  False after a violation."""
+    cpu = sim.cpu
+    cmds = [('expr', strip_names(pe(e), scn['ast']), i) for i, e in enumerate(st['exprs'])]
+    errs = [('oob', strip_names(b, scn['ast']), None) for b in st.get('oob', [])] + \
            [('bad', b, None) for b in st['bad']]
+    # failing prints come first at some stops: an error must leave nothing
+    # behind that changes a later evaluation
+    cmds = errs + cmds if st.get('bad_first') else cmds + errs
     for kind, text, i in cmds:
         d0 = state_digest(sim)
         nb = len(cpu.breakpoints)
@@ -517,10 +708,10 @@ def one_stop(scn, st, mi, pos, res, opt):
         if sim.exc is not None:
             bad('C13:crash', {'print': text, 'exc': sim.exc, 'halted': cpu.halted, 'how': st['how']},
                 sig={'exc_type': sim.exc['type'], 'where': sim.exc['where']})
-            return
+            return False
         if state_digest(sim) != d0 or len(cpu.breakpoints) != nb or sim.ticks != ticks0:
             bad('C13:state-changed', {'print': text}, sig={})
-            return
+            return False
         if kind == 'bad':
             res.count('error_prints_checked')
             continue
@@ -529,7 +720,7 @@ def one_stop(scn, st, mi, pos, res, opt):
             if not (shown.startswith('Eval error') or shown.startswith('Error parsing')):
                 bad('C13:error-not-reported', {'print': text, 'debugger': shown[:200],
                                                'how': st['how']}, sig={'kind': 'subscript'})
-                return
+                return False
             res.count('out_of_range_prints_checked')
             continue
         if st['how'] == 'finish' or expected is None or i >= len(expected):
@@ -550,15 +741,16 @@ def one_stop(scn, st, mi, pos, res, opt):
                               'stop_line': pos.get(st['id']), 'how': st['how'], 'arrival': st['j']},
                 sig={'kind': 'error-instead-of-value', 'msg': shown.split(':')[0][:40] + ':' +
                      shown.split(':', 1)[-1].strip()[:30]})
-            return
+            return False
         if not same_value(shown, expected[i]):
             bad('C13:value', {'print': text, 'debugger': shown, 'program': expected[i],
                               'stop_line': pos.get(st['id']), 'how': st['how'], 'arrival': st['j']},
                 sig={'kind': 'wrong-value'})
-            return
+            return False
         res.count('values_agreeing')
-        res.nontrivial.add(digest([scn['text'], opt, st['id'], st['j'], text]))
+        res.nontrivial.add(digest([scn['text'], scn['config']['opt'], st['id'], st['j'], text]))
     if res.sample is None and st['exprs']:
         res.sample = {'text_head': scn['text'][:400], 'stop_line': pos.get(st['id']),
                       'arrival': st['j'], 'how': st['how'],
                       'prints': [pe(e) for e in st['exprs']], 'expected': expected}
+    return True
